@@ -10,7 +10,9 @@ import (
 	"os"
 	"path/filepath"
 	"runtime"
+	"sort"
 	"strings"
+	"sync"
 	"time"
 
 	"github.com/magisterquis/curlrevshell/verifharness/mon"
@@ -157,6 +159,17 @@ type reqT struct {
 	abs   string
 	absPw bool   // the userinfo has a password component (possibly empty)
 	sub   string // sub-class, counted separately
+	// lits: the client's texts of a request whose texts themselves contain "%!" (the literal
+	// output of fmt's complaints): a "%!" in a notice is accounted for only inside them
+	lits []string
+	id2  string // refuse: the second ID (generated from the case's PRNG when empty)
+	// where: "" = judged at the operator channel, "@terminal" = at the terminal of the real program
+	// (suffix of the violation keys)
+	where string
+	// cnt: suffix of the counters of the case ("" = engine req, "@lit", "@huge", "@terminal"), so that
+	// every engine has floors of its own
+	cnt   string
+	count func(r *mon.Run, q reqT) // further counters of a case whose expectation was checked
 }
 
 func idChars(c byte) bool {
@@ -353,6 +366,45 @@ func openStream(addr, raw string) (*hk.Conn, error) {
 	return c, nil
 }
 
+// observer is where the notices are looked at: the operator channel of an
+// in-process server (hkObs) or the terminal of the real program (termObs).
+type observer interface {
+	// Addr is where the clients connect.
+	Addr() string
+	// WaitNotice waits (bounded) for a notice that contains sub, since the last Mark.
+	WaitNotice(sub string) bool
+	// Mark closes the window: every notice sent before the call is returned
+	// (without the marker itself).
+	Mark(tag string) ([]string, bool)
+}
+
+// hkObs observes the operator channel of an in-process server.
+type hkObs struct {
+	s    *hk.Server
+	addr string
+	from int
+}
+
+func (o *hkObs) Addr() string { return o.addr }
+func (o *hkObs) WaitNotice(sub string) bool {
+	_, ok := o.s.Log.Wait(o.from, hk.Bound, func(e bk.Event) bool { return e.Kind == "op" && strings.Contains(e.S, sub) })
+	return ok
+}
+func (o *hkObs) Mark(tag string) ([]string, bool) {
+	to, ok := o.s.Mark(tag)
+	if !ok {
+		return nil, false
+	}
+	var lines []string
+	for _, e := range o.s.OpLines(o.from, to) {
+		if !strings.HasPrefix(e.S, "MARK-") {
+			lines = append(lines, e.S)
+		}
+	}
+	o.from = to
+	return lines, true
+}
+
 func runServer(r *mon.Run, si int, ct cfgT, n int) {
 	s, err := hk.Start(ct.cfg)
 	if err != nil {
@@ -372,7 +424,8 @@ func runServer(r *mon.Run, si int, ct cfgT, n int) {
 		}
 		r.Count("servers_with_percent_in_client_address", 1)
 	}
-	from, _ := s.Mark(fmt.Sprintf("MARK-start-%d", si))
+	ob := &hkObs{s: s, addr: addr}
+	ob.from, _ = s.Mark(fmt.Sprintf("MARK-start-%d", si))
 	for i := 0; i < n; i++ {
 		idx := si*100000 + i
 		if !r.Want("req", idx) {
@@ -380,136 +433,217 @@ func runServer(r *mon.Run, si int, ct cfgT, n int) {
 		}
 		rng := r.Rng("req", idx)
 		q := genReq(rng, ct.name)
-		var expect []string
-		status := 0
-		switch q.stream {
-		case "":
-			res, _, err := hk.RoundTrip(addr, q.sni, []byte(q.raw), hk.Bound)
-			if err != nil && res == nil {
-				r.Inconclusive(fmt.Sprintf("request failed: %v", err))
-				continue
-			}
-			status = res.Status
-			expect = q.expect
-			if strings.HasPrefix(q.class, "script") && status == 500 {
-				// the template could not be read or executed: that notice is not about client text
-				expect = nil
-			}
-			if status == 301 || status == 404 && ct.cfg.FDir == "" && strings.HasPrefix(q.class, "file") {
-				// the mux answered without any handler running: no notice is due
-				expect = nil
-			}
-		case "i", "o":
-			c, err := openStream(addr, q.raw)
-			if err != nil {
-				r.Inconclusive(err.Error())
-				continue
-			}
-			_, ok := s.Log.Wait(from, hk.Bound, func(e bk.Event) bool { return e.Kind == "op" && strings.Contains(e.S, "connected: ID") })
-			c.Close()
-			if !ok {
-				r.Violate("req", idx, "stream-attach-not-announced", fmt.Sprintf("no 'connected' notice for %q on server %s", q.raw, ct.name), nil)
-				continue
-			}
-			s.Log.Wait(from, hk.Bound, func(e bk.Event) bool { return e.Kind == "op" && strings.Contains(e.S, "Shell is gone") })
-			expect = q.expect
-		case "refuse":
-			id1 := q.raw
-			id2 := verbText(rng, idChars)
-			if id2 == id1 {
-				id2 += "%d"
-			}
-			c1, err := openStream(addr, fmt.Sprintf("GET /i/%s HTTP/1.1\r\nHost: h\r\n\r\n", url.PathEscape(id1)))
-			if err != nil {
-				r.Inconclusive(err.Error())
-				continue
-			}
-			s.Log.Wait(from, hk.Bound, func(e bk.Event) bool { return e.Kind == "op" && strings.Contains(e.S, "connected: ID") })
-			// same direction, other ID; then other direction, other ID
-			hk.RoundTrip(addr, "", []byte(fmt.Sprintf("GET /i/%s HTTP/1.1\r\nHost: h\r\nConnection: close\r\n\r\n", url.PathEscape(id2))), hk.Bound)
-			hk.RoundTrip(addr, "", []byte(fmt.Sprintf("POST /o/%s HTTP/1.1\r\nHost: h\r\nContent-Length: 0\r\nConnection: close\r\n\r\n", url.PathEscape(id2))), hk.Bound)
-			s.Log.Wait(from, hk.Bound, func(e bk.Event) bool {
-				return e.Kind == "op" && strings.Contains(e.S, "Rejected output")
-			})
-			c1.Close()
-			s.Log.Wait(from, hk.Bound, func(e bk.Event) bool { return e.Kind == "op" && strings.Contains(e.S, "Shell is gone") })
-			// the two refusal notices must carry id2 (and the second one id1 as the expected ID)
-			to, _ := s.Mark(fmt.Sprintf("MARK-%d", idx))
-			nrej := 0
-			for _, e := range s.OpLines(from, to) {
-				if strings.Contains(e.S, "Rejected") {
-					nrej++
-					if !strings.Contains(e.S, id2) && !strings.Contains(e.S, fmt.Sprintf("%q", id2)) {
-						r.Violate("req", idx, "notice-omits-client-text:refused-id", fmt.Sprintf("refusal notice %q does not contain the refused ID %q", e.S, id2), map[string]any{"server": ct.name})
-					}
-				}
-			}
-			r.Count("refusal_notices_checked", int64(nrej))
-			judgeWindow(r, s, idx, ct, q, from, to, nil, 0)
-			from = to
-			r.Eval(1)
-			r.Distinct(q.class + "|" + id1 + "|" + id2)
-			continue
-		}
-		to, ok := s.Mark(fmt.Sprintf("MARK-%d", idx))
-		if !ok {
-			r.Inconclusive("marker lost")
+		if !doCase(r, ob, "req", idx, rng, ct, q, i < 1) {
 			return
 		}
-		judgeWindow(r, s, idx, ct, q, from, to, expect, status)
-		if i < 1 {
-			var lines []string
-			for _, e := range s.OpLines(from, to) {
-				lines = append(lines, e.S)
-			}
-			r.Sample("req", map[string]any{"server": ct.name, "class": q.class, "request": q.raw, "status": status, "notices": lines})
-		}
-		from = to
-		r.Eval(1)
-		r.Distinct(q.class + "|" + q.raw)
 	}
 }
 
-func judgeWindow(r *mon.Run, s *hk.Server, idx int, ct cfgT, q reqT, from, to int, expect []string, status int) {
-	lines := s.OpLines(from, to)
+// short renders a (possibly huge) text for a witness.
+func short(s string) string {
+	if len(s) <= 600 {
+		return s
+	}
+	return fmt.Sprintf("%s ...[%d bytes in all]... %s", s[:300], len(s), s[len(s)-200:])
+}
+
+func shorts(l []string) []string {
+	out := make([]string, len(l))
+	for i, s := range l {
+		out[i] = short(s)
+	}
+	return out
+}
+
+// doCase sends one generated request (or opens the streams of one case), closes
+// the window of notices with a marker and judges it.  false = the observer is
+// lost, no further case can be judged.
+func doCase(r *mon.Run, ob observer, engine string, idx int, rng *rand.Rand, ct cfgT, q reqT, sample bool) bool {
+	addr := ob.Addr()
+	var expect []string
+	status := 0
+	// lost: a notice the case waits for was not seen within the bound (a stalled machine): it may still
+	// come, inside a later window - this observer is given up, the cases left make the floors fail
+	lost := func(what string) bool {
+		r.Inconclusive(fmt.Sprintf("%s case %d (%s): %s was not seen within the bound; the rest of this server's cases is not run", engine, idx, q.class, what))
+		return false
+	}
+	switch q.stream {
+	case "":
+		res, _, err := hk.RoundTrip(addr, q.sni, []byte(q.raw), hk.Bound)
+		if err != nil && res == nil && engine != "req" {
+			return lost(fmt.Sprintf("the response (%v)", err))
+		}
+		if err != nil && res == nil {
+			r.Inconclusive(fmt.Sprintf("request failed: %v", err))
+			return true
+		}
+		status = res.Status
+		expect = q.expect
+		if strings.HasPrefix(q.class, "script") && status == 500 {
+			// the template could not be read or executed: that notice is not about client text
+			expect = nil
+		}
+		if status == 301 || status == 404 && ct.cfg.FDir == "" && strings.HasPrefix(q.class, "file") {
+			// the mux answered without any handler running: no notice is due
+			expect = nil
+		}
+		if engine != "req" && (status == 431 || status == 400 && strings.HasPrefix(string(res.Body), "400 Bad Request")) {
+			// the HTTP library turned the request down before any handler saw it: no notice is due
+			// (the expectation is then not counted, and the floors on counted expectations fail the run)
+			r.Count("requests_turned_down_by_the_http_library", 1)
+			expect = nil
+		}
+	case "i", "o":
+		c, err := openStream(addr, q.raw)
+		if err != nil {
+			r.Inconclusive(err.Error())
+			return true
+		}
+		ok := ob.WaitNotice("connected: ID")
+		c.Close()
+		if !ok && engine != "req" {
+			return lost("the 'connected' notice")
+		}
+		if !ok {
+			r.Violate(engine, idx, "stream-attach-not-announced", fmt.Sprintf("no 'connected' notice for %q on server %s", short(q.raw), ct.name), nil)
+			return true
+		}
+		if !ob.WaitNotice("Shell is gone") && engine != "req" {
+			return lost("the 'Shell is gone' notice")
+		}
+		expect = q.expect
+	case "refuse":
+		id1 := q.raw
+		id2 := q.id2
+		if id2 == "" {
+			id2 = verbText(rng, idChars)
+			if id2 == id1 {
+				id2 += "%d"
+			}
+		}
+		c1, err := openStream(addr, fmt.Sprintf("GET /i/%s HTTP/1.1\r\nHost: h\r\n\r\n", url.PathEscape(id1)))
+		if err != nil {
+			r.Inconclusive(err.Error())
+			return true
+		}
+		if !ob.WaitNotice("connected: ID") && engine != "req" {
+			c1.Close()
+			return lost("the 'connected' notice")
+		}
+		// same direction, other ID; then other direction, other ID
+		hk.RoundTrip(addr, "", []byte(fmt.Sprintf("GET /i/%s HTTP/1.1\r\nHost: h\r\nConnection: close\r\n\r\n", url.PathEscape(id2))), hk.Bound)
+		hk.RoundTrip(addr, "", []byte(fmt.Sprintf("POST /o/%s HTTP/1.1\r\nHost: h\r\nContent-Length: 0\r\nConnection: close\r\n\r\n", url.PathEscape(id2))), hk.Bound)
+		ok1 := ob.WaitNotice("Rejected output")
+		c1.Close()
+		if ok2 := ob.WaitNotice("Shell is gone"); !(ok1 && ok2) && engine != "req" {
+			return lost("a refusal or the 'Shell is gone' notice")
+		}
+		// the two refusal notices must carry id2 (and the second one id1 as the expected ID)
+		lines, ok := ob.Mark(fmt.Sprintf("MARK-%s-%d", engine, idx))
+		if !ok {
+			r.Inconclusive("marker lost")
+			return false
+		}
+		nrej := 0
+		for _, l := range lines {
+			if strings.Contains(l, "Rejected") {
+				nrej++
+				if !strings.Contains(l, id2) && !strings.Contains(l, fmt.Sprintf("%q", id2)) {
+					r.Violate(engine, idx, "notice-omits-client-text:"+q.class+q.where, fmt.Sprintf("refusal notice %q does not contain the refused ID %q", l, id2), map[string]any{"server": ct.name})
+				}
+			}
+		}
+		r.Count("refusal_notices_checked"+q.cnt, int64(nrej))
+		if len(q.lits) > 0 {
+			r.Count("refusal_notices_checked:"+q.class+q.cnt, int64(nrej))
+			if nrej >= 2 && q.count != nil {
+				q.count(r, q)
+			}
+		}
+		judgeWindow(r, engine, lines, idx, ct, q, nil, 0)
+		r.Eval(1)
+		r.Distinct(q.class + "|" + id1 + "|" + id2)
+		return true
+	}
+	lines, ok := ob.Mark(fmt.Sprintf("MARK-%s-%d", engine, idx))
+	if !ok {
+		r.Inconclusive("marker lost")
+		return false
+	}
+	judgeWindow(r, engine, lines, idx, ct, q, expect, status)
+	if sample {
+		r.Sample(engine, map[string]any{"server": ct.name, "class": q.class, "request": short(q.raw), "status": status, "notices": shorts(lines)})
+	}
+	r.Eval(1)
+	if len(q.raw) > 4096 {
+		// (a huge text: its length, drawn from the case's PRNG, and its beginning tell it from the others)
+		r.Distinct(fmt.Sprintf("%s|%d|%s", q.class, len(q.raw), q.raw[:1024]))
+	} else {
+		r.Distinct(q.class + "|" + q.raw)
+	}
+	return true
+}
+
+// stripClient takes every occurrence of the client's own texts out of a
+// notice (longest first): what is left is the program's own wording.
+func stripClient(line string, lits []string) string {
+	if len(lits) == 0 || !strings.Contains(line, "%!") {
+		return line
+	}
+	ls := append([]string(nil), lits...)
+	sort.Slice(ls, func(i, j int) bool { return len(ls[i]) > len(ls[j]) })
+	for _, l := range ls {
+		if l != "" {
+			line = strings.ReplaceAll(line, l, "\x00")
+		}
+	}
+	return line
+}
+
+func judgeWindow(r *mon.Run, engine string, texts []string, idx int, ct cfgT, q reqT, expect []string, status int) {
 	found := len(expect) == 0
-	var texts []string
-	for _, e := range lines {
-		if strings.HasPrefix(e.S, "MARK-") {
-			continue
+	for _, line := range texts {
+		r.Count("notices_checked"+q.cnt, 1)
+		if ct.clientHost != "" && strings.HasPrefix(line, "[") && !strings.HasPrefix(line, "["+ct.clientHost+"]") {
+			r.Violate(engine, idx, "notice-omits-client-text:client-address", fmt.Sprintf("operator notice %q does not start with the client's address [%s]", short(line), ct.clientHost), map[string]any{"request": short(q.raw)})
 		}
-		texts = append(texts, e.S)
-		r.Count("notices_checked", 1)
-		if ct.clientHost != "" && strings.HasPrefix(e.S, "[") && !strings.HasPrefix(e.S, "["+ct.clientHost+"]") {
-			r.Violate("req", idx, "notice-omits-client-text:client-address", fmt.Sprintf("operator notice %q does not start with the client's address [%s]", e.S, ct.clientHost), map[string]any{"request": q.raw})
-		}
-		if ct.clientHost != "" && strings.HasPrefix(e.S, "[") {
+		if ct.clientHost != "" && strings.HasPrefix(line, "[") {
 			r.Count("client_address_notices_checked", 1)
 		}
-		if strings.Contains(e.S, "%!") {
-			r.Violate("req", idx, "formatter-artefact:"+q.class, fmt.Sprintf("operator notice contains a formatter artefact: %q (request class %s, server %s)", e.S, q.class, ct.name), map[string]any{"request": q.raw, "notices": texts})
+		// a "%!" is an artefact unless it is part of the client's own text, present character for
+		// character: the client's texts are taken out of the notice, the rest is the program's
+		if strings.Contains(stripClient(line, q.lits), "%!") {
+			what := "operator notice contains a formatter artefact"
+			if len(q.lits) > 0 {
+				what = "operator notice contains a '%!' that is not part of the client's text as the client sent it"
+			}
+			r.Violate(engine, idx, "formatter-artefact:"+q.class+q.where, fmt.Sprintf("%s: %q (request class %s, server %s; client text %q)", what, short(line), q.class, ct.name, shorts(q.lits)), map[string]any{"request": short(q.raw), "notices": shorts(texts)})
 		}
 		if q.abs != "" && len(expect) > 0 {
 			// the whole absolute-form target is client text: byte for byte whenever the URL library
 			// prints it as written, else equal up to the spelling of escapes / the case of the scheme
-			verbatim, modulo := absMatch(e.S, q.abs)
+			verbatim, modulo := absMatch(line, q.abs)
 			if verbatim || modulo && !absNormalForm(q.abs) {
 				found = true
 			}
 			continue
 		}
 		for _, x := range expect {
-			if strings.Contains(e.S, x) {
+			if strings.Contains(line, x) {
 				found = true
 			}
 		}
 	}
-	r.Count("requests:"+q.class, 1)
+	r.Count("requests:"+q.class+q.cnt, 1)
 	if q.sub != "" && len(expect) > 0 {
-		r.Count("expectations:"+q.class+":"+q.sub, 1)
+		r.Count("expectations:"+q.class+":"+q.sub+q.cnt, 1)
 	}
 	if len(expect) > 0 {
-		r.Count("verbatim_expectations", 1)
+		r.Count("verbatim_expectations"+q.cnt, 1)
+		if q.count != nil {
+			q.count(r, q)
+		}
 	}
 	if q.abs != "" && len(expect) > 0 {
 		if absNormalForm(q.abs) {
@@ -525,29 +659,71 @@ func judgeWindow(r *mon.Run, s *hk.Server, idx int, ct cfgT, q reqT, from, to in
 		r.Count("requests_in_absolute_form", 1)
 	}
 	if !found {
-		r.Violate("req", idx, "notice-omits-client-text:"+q.class, fmt.Sprintf("no operator notice contains the client-supplied text %q character for character (request class %s, server %s, status %d)", expect[0], q.class, ct.name, status), map[string]any{"request": q.raw, "notices": texts})
+		what := fmt.Sprintf("no operator notice contains the client-supplied text %q character for character (request class %s, server %s, status %d)", short(expect[0]), q.class, ct.name, status)
+		if len(expect[0]) > 600 {
+			what += "; " + howMuch(texts, expect[0])
+		}
+		r.Violate(engine, idx, "notice-omits-client-text:"+q.class+q.where, what, map[string]any{"request": short(q.raw), "notices": shorts(texts)})
 	}
 }
 
+// howMuch says how much of a long client text a window of notices carries.
+func howMuch(texts []string, x string) string {
+	best, bestLine := -1, 0
+	for _, l := range texts {
+		i := strings.Index(l, x[:64])
+		if i < 0 {
+			continue
+		}
+		n := 0
+		for n < len(x) && i+n < len(l) && l[i+n] == x[n] {
+			n++
+		}
+		if n > best {
+			best, bestLine = n, len(l)
+		}
+	}
+	if best < 0 {
+		return fmt.Sprintf("not even the first 64 of its %d bytes are in a notice", len(x))
+	}
+	return fmt.Sprintf("a notice of %d bytes carries its first %d bytes of %d and then goes on differently", bestLine, best, len(x))
+}
+
 func Run(r *mon.Run) {
-	r.Rule = "hsrv.Server in-process on real TLS in seven configurations (directory, unset, single file, missing directory, missing/failing/unparsable template - with % sequences in the configured paths; two more with clients on an IPv6 link-local address, whose text carries a %zone); raw requests carrying printf-looking text ('%' + flags/width/precision/index/verb, '%%', URL escapes such as %20b whose raw form reads as a verb) in path, raw query, c2 parameter, c2 header, Host (also with the escapes a URL's host may carry - %25…, bytes >= 0x80 - and RFC 6874 zoned IPv6 literals), undecodable escapes, /i/{id} and /o/{id}, and refusals naming two such IDs; request-targets also in ABSOLUTE-FORM (scheme://userinfo@host/path?query with every userinfo shape - user@, user:pass@, :pass@, user:@, :@, @ - escapes and escaped verbs inside user and password, scheme/host case variants, zoned IPv6 hosts) for the file handler (echoes the target), the script handler (c2 parameter; callback taken from the target's host) and the stream handlers; after each request a marker line closes the window of operator notices, none of which may contain '%!' and one of which must contain the client text character for character (IDs also accepted in the Go-quoted form the broker prints; an absolute-form target must be there byte for byte as the harness wrote it whenever it is in the URL library's normal form - url.ParseRequestURI(t).String()==t, computed by the harness - and otherwise with its path and query byte for byte and the rest equal up to the spelling of percent-escapes and the case of the scheme). Engine broker: every refusal branch in gate mode with formatting IDs. Engine xerr (gate mode): attached shells of seven shapes (output alone, input alone with failing write / failing flush, both sides with either failing, /io with either failing) whose reader or writer - owned by the harness - fails with a *net.OpError built by the harness (Op, Net, Source, Addr with %zone such as eth0/docker0/sit0/veth…, Err = errno, syscall error or printf-looking text; also wrapped as crypto/tls does, and errors without addresses) for a client host fe80::…%zone: no notice may contain '%!', every notice starts with [client host], and a notice that reports the error (recognised by the client's port number / a token) must contain the error's text byte for byte. Engine rst (only on a machine with a link-local address): hsrv on real TLS bound to the link-local address itself and to [::], clients from the link-local address: reset (SO_LINGER 0) while the server reads /o and /io output (after a burst of output), reset or close while lines are being written to an /i or /io client that does not read (write stuck in full socket buffers), half-closes, with one or both sides attached: no '%!', [client host] prefix, callback ID verbatim, and a notice that names the client's port must contain the client's host:port as net prints it. distinct = distinct request texts / error texts; all are non-trivial (each carries at least one '%')"
-	r.Assumptions = []string{"generated text never contains '%!' itself, so the artefact test is unambiguous", "only call sites a request or configuration can reach are covered", "an escape and the byte it denotes are the same client data (as for c2 parameters and callback IDs): where the URL library re-spells the authority part of an absolute-form target (%41 -> A, %2f -> %2F, ! -> %21, HTTPS -> https) the notice may show either spelling; path and query are always expected byte for byte", "a port number in a notice of a case's window that equals the client's ephemeral port quotes that connection's addresses"}
+	r.Rule = "hsrv.Server in-process on real TLS in seven configurations (directory, unset, single file, missing directory, missing/failing/unparsable template - with % sequences in the configured paths; two more with clients on an IPv6 link-local address, whose text carries a %zone); raw requests carrying printf-looking text ('%' + flags/width/precision/index/verb, '%%', URL escapes such as %20b whose raw form reads as a verb) in path, raw query, c2 parameter, c2 header, Host (also with the escapes a URL's host may carry - %25…, bytes >= 0x80 - and RFC 6874 zoned IPv6 literals), undecodable escapes, /i/{id} and /o/{id}, and refusals naming two such IDs; request-targets also in ABSOLUTE-FORM (scheme://userinfo@host/path?query with every userinfo shape - user@, user:pass@, :pass@, user:@, :@, @ - escapes and escaped verbs inside user and password, scheme/host case variants, zoned IPv6 hosts) for the file handler (echoes the target), the script handler (c2 parameter; callback taken from the target's host) and the stream handlers; after each request a marker line closes the window of operator notices, none of which may contain '%!' and one of which must contain the client text character for character (IDs also accepted in the Go-quoted form the broker prints; an absolute-form target must be there byte for byte as the harness wrote it whenever it is in the URL library's normal form - url.ParseRequestURI(t).String()==t, computed by the harness - and otherwise with its path and query byte for byte and the rest equal up to the spelling of percent-escapes and the case of the scheme). Engine broker: every refusal branch in gate mode with formatting IDs. Engine xerr (gate mode): attached shells of seven shapes (output alone, input alone with failing write / failing flush, both sides with either failing, /io with either failing) whose reader or writer - owned by the harness - fails with a *net.OpError built by the harness (Op, Net, Source, Addr with %zone such as eth0/docker0/sit0/veth…, Err = errno, syscall error or printf-looking text; also wrapped as crypto/tls does, and errors without addresses) for a client host fe80::…%zone: no notice may contain '%!', every notice starts with [client host], and a notice that reports the error (recognised by the client's port number / a token) must contain the error's text byte for byte. Engine rst (only on a machine with a link-local address): hsrv on real TLS bound to the link-local address itself and to [::], clients from the link-local address: reset (SO_LINGER 0) while the server reads /o and /io output (after a burst of output), reset or close while lines are being written to an /i or /io client that does not read (write stuck in full socket buffers), half-closes, with one or both sides attached: no '%!', [client host] prefix, callback ID verbatim, and a notice that names the client's port must contain the client's host:port as net prints it. Engine lit (in-process servers 'directory' and 'single file', notices read at the operator channel): client text that itself contains the LITERAL OUTPUT of fmt's complaints - %!s(MISSING), %!d(string=x), %!(EXTRA int=1), %!(NOVERB), %!(BADWIDTH), %!(BADPREC), %!(BADINDEX), %!v(PANIC=...), %!s(<nil>), bad verbs, nested forms, forms cut off anywhere, made-up '%!' + verb + '(word)' - mixed with ordinary verbs, in every position a client controls: raw query, path (escaped spelling), c2 parameter, c2 header, Host, the bad escape an undecodable query's error text quotes, /i/{id}, /o/{id}, and the two IDs of a refusal; every table entry is used in every position. The oracle is exact there: the notice must contain the client's text character for character, and a '%!' in a notice is an artefact unless it lies inside an occurrence of the client's own text as the client sent it (every occurrence of the case's client texts is taken out of the notice; what is left, the program's wording, must not contain '%!' - so client text that was re-formatted, shortened or 'cleaned' is both an omission and, where a '%!' is left over, an artefact). Engine huge (same servers): client text of 64 KiB ... 1,040,000 bytes (five bands: 64-200 KiB, around 256 KiB, 257-400 KiB, 513-800 KiB, 900 KiB-1,040,000 bytes; the whole request stays below net/http's header limit of 1 MiB, the unchanged program serves up to 1 MiB + 4096 bytes; a position whose escaped spelling is longer on the wire gets as much text as fits) made of printf-looking pieces and running offsets in raw query, path, c2 parameter, c2 header, Host, /i/{id} and /o/{id}: one notice of the window must carry ALL of it, byte for byte. Engine term: the classes of lit and huge and, every fourth case, an ordinary case of engine req, against the REAL PROGRAM on a pty (-serve-files-from a directory), the notices read where the operator sees them - the terminal's text after lib/opshell rendered it (escape sequences interpreted, prompt redraws removed; window closed by a request for a file named after the marker, whose 'File requested' line follows every notice of the requests answered before): same two rules, keys end in @terminal. A request the HTTP library itself turns down (400 with its own body, 431) has no notice due and is not counted as an expectation; in these three engines a wait that expires (response, attach notice, marker) is inconclusive and ends that server's cases, so that a late notice cannot fall into a later window. distinct = distinct request texts / error texts; all are non-trivial (each carries at least one '%')"
+	r.Assumptions = []string{"outside engine lit (and its share of engine term) generated text never contains '%!' itself, so every '%!' is an artefact; in engine lit a '%!' is accounted for only by a whole, unchanged occurrence of one of the case's client texts (text, Go-quoted ID), and client texts never end in '%' nor does the program's wording put a '!' or '%' next to them", "the terminal shows a notice on one line (the program does not wrap; line wrapping is the terminal emulator's business): a notice at the terminal is the text between two line ends, after the time stamp", "a response that arrived means the request's notice is already on the operator channel (handlers send it before they return), so a marker sent afterwards follows it", "only call sites a request or configuration can reach are covered", "an escape and the byte it denotes are the same client data (as for c2 parameters and callback IDs): where the URL library re-spells the authority part of an absolute-form target (%41 -> A, %2f -> %2F, ! -> %21, HTTPS -> https) the notice may show either spelling; path and query are always expected byte for byte", "a port number in a notice of a case's window that equals the client's ephemeral port quotes that connection's addresses"}
 	cfgs := makeConfigs(r.Work)
+	// the engines added later run next to the others: term (the real program on a pty), lit and huge (in-process)
+	var side sync.WaitGroup
+	for _, e := range []struct {
+		name string
+		f    func(*mon.Run)
+	}{{"term", termEngine}, {"huge", hugeEngine}, {"lit", litEngine}} {
+		if r.WantEngine(e.name) {
+			side.Add(1)
+			go func() { defer side.Done(); e.f(r); r.Logf("engine %s done", e.name) }()
+		}
+	}
+	defer side.Wait()
 	per := r.N(400, 6000)
 	mon.Parallel(len(cfgs), runtime.NumCPU(), func(i int) {
 		if r.WantEngine("req") {
 			runServer(r, i, cfgs[i], per)
 		}
 	})
+	r.Logf("engine req done")
 	if r.WantEngine("broker") {
 		brokerNotices(r)
 	}
+	r.Logf("engine broker done")
 	if r.WantEngine("xerr") {
 		transportErrorsGate(r)
 	}
+	r.Logf("engine xerr done")
 	if r.WantEngine("rst") {
 		transportEndingsTLS(r, filepath.Join(r.Work, "files"))
 	}
+	r.Logf("engine rst done")
 	r.Floor("notices_checked", 500)
 	r.Floor("verbatim_expectations", 300)
 	r.Floor("refusal_notices_checked", 20)
